@@ -1,4 +1,4 @@
-\* MCShrex_replay_rate.cfg -- generated from checks/X_limits.py (job sh_replay_rate); run: tlc -config MCShrex_replay_rate.cfg MCShrexLimits.tla
+\* MCShrex_rate.cfg -- generated from checks/X_limits.py (job sh_full_rate); run: tlc -config MCShrex_rate.cfg MCShrexLimits.tla
 CONSTANTS
   Peers = {1, 2, 3}
   Protos = {1}
@@ -9,7 +9,7 @@ CONSTANTS
   ProtoPeerLim <- MCProtoPeerLim
   IP1 = "x"
   IP2 = "x"
-  IP3 = "lo"
+  IP3 = "y"
   IP4 = "none"
   Need1 = 4
   Need2 = 1
@@ -25,13 +25,13 @@ CONSTANTS
   Rate = 1
   Grace = 1
   RateOn = TRUE
-  Atomic = TRUE
+  Atomic = FALSE
   CloseOnLimit = TRUE
-  WatchTime = 0
+  WatchTime = 3
   Hows = {"served", "failed", "panicked"}
 INIT MCInit
-NEXT MCNextNoWatch
-VIEW ViewReplay
-ACTION_CONSTRAINT EdgeOut
-INVARIANTS TypeOK CountersExact MemoryExact WithinLimits QuiescentFree ExpiryGrantsNothing BucketKeptWhileNotFull InitOut AddrOut
+VIEW View
 CHECK_DEADLOCK FALSE
+NEXT MCNext
+INVARIANTS TypeOK CountersExact MemoryExact WithinLimits QuiescentFree ExpiryGrantsNothing BucketKeptWhileNotFull WindowBound
+PROPERTIES AddressesIndependent RefusedStreamEnds
